@@ -1814,3 +1814,16 @@ void abtmc_rt_end(void)
     abtmc_g.active = 0;
     finishf(ABTMC_ST_OK, NULL, "ok");
 }
+
+/* ---- ULT stack (re)use: libabt tells us when a context is (re)initialised on
+ * a stack (hook ABTI_VERIF_STACK_INIT).  A ULT leaves its stack through a
+ * context switch, not by returning, so the address sanitizer keeps the
+ * redzones of its last frames poisoned; the next user of the same stack (stack
+ * pool, revive) would trip over them.  Clear the shadow of the whole stack. */
+extern void __asan_unpoison_memory_region(void const volatile *addr, size_t size)
+    __attribute__((weak));
+void abtmc_stack_init(void *p_stacktop, size_t stacksize)
+{
+    if (p_stacktop && stacksize && __asan_unpoison_memory_region)
+        __asan_unpoison_memory_region((char *)p_stacktop - stacksize, stacksize);
+}
